@@ -12,7 +12,7 @@
 (*              [k : "list", items : Seq(item)]]                           *)
 (* spec  [ip : "none"|"v4"|"v6"|"v4mapped"|"mc4"|"mc6"|"garbage",          *)
 (*        text : canonical text of the address, bracket : BOOLEAN,         *)
-(*        zone : "" | name, port : -1 (none) | -2 (garbage) | 0..65535]    *)
+(*        zone : "" | name, port : -1 (none) | -2 (garbage) | the number]   *)
 (* item  [k : "one", name, args : Seq(word)] | [k : "two"] | [k : "scalar"]*)
 (* interfaces  Seq([name, mcast : BOOLEAN, bcast : BOOLEAN])               *)
 (***************************************************************************)
